@@ -34,6 +34,7 @@ def table_cases(rng, n_tables, tier):
         if near and t % 4 == 1: mfm = rng.choice(near)
         cfg = dict(min_freq=0.04, min_freq_mod=mfm, max_n_mod=rng.choice([2, 3, 4]), sort_by=rng.choice(['tschuprowt', 'cramerv']),
                    dropna=rng.choice([True, True, False]), output_dtype=rng.choice(['float', 'str']))
+        if t % 5 == 2: cfg['str_nan'] = 'MISSING'; cfg['str_default'] = 'AUTRES'          # custom markers (the oracle's Discretizer keeps the default ones)
         reindex(case, rng, t)
         cases.append((case, cfg))
     return cases
@@ -57,6 +58,7 @@ def random_cases(rng, n):
     for _ in range(n):
         case = zoo.random_case(rng)
         cfg = dict(rng.choice(zoo.CONFIGS)); cfg['min_freq_mod'] = rng.choice([None, None, cfg['min_freq'], 0.05, 0.0])
+        if len(out) % 4 == 1: cfg['str_nan'] = 'MISSING'; cfg['str_default'] = 'AUTRES'
         reindex(case, rng, len(out))
         out.append((case, cfg))
     return out
@@ -104,7 +106,8 @@ def one(arg):
     try:
         carver = zoo.fit_carver(case, cfg)
     except AssertionError as e:
-        return [('skip.carver_rejects', True, None, str(e)[:100], False)]
+        # the Discretizer with the same parameters (default markers) accepted this sample: the carver has no reason to refuse it
+        return [('C01:fit#raises.nothing_on_a_sample_the_base_discretizer_accepts', False, lit, 'carver.fit raised AssertionError: %s' % str(e)[:300], True)]
     except Exception as e:
         return [('C08:fit#raises.only_AssertionError', False, lit, 'carver.fit raised %s: %s\n%s' % (type(e).__name__, str(e)[:200], traceback.format_exc()[-600:]), True)]
     try:
